@@ -45,6 +45,7 @@ type recGauge struct {
 }
 
 type recRegistry struct {
+	sc      *sched // when set, every AddSample of a listener is a schedule point (a real registry locks, formats and writes there)
 	mu      sync.Mutex
 	Samples []recSample
 	Gauges  []recGauge
@@ -59,6 +60,9 @@ type recListener struct {
 }
 
 func (l *recListener) AddSample(v float64, tags ...string) {
+	if l.r.sc != nil {
+		l.r.sc.Point("metric.addsample")
+	}
 	l.r.mu.Lock()
 	l.r.seq++
 	l.r.Samples = append(l.r.Samples, recSample{l.id, l.tags, v, l.r.seq})
@@ -326,6 +330,7 @@ type StackCfg struct {
 	TimeoutMs   int    `json:"timeout_ms,omitempty"`
 	Evict       bool   `json:"evict,omitempty"`
 	DeadlineMs  int    `json:"deadline_ms,omitempty"`
+	SlowMetrics bool   `json:"slow_metrics,omitempty"` // cooperative schedules: the registry's sample listeners are schedule points
 	FmtLog      bool   `json:"fmt_log,omitempty"`      // every component of the stack is handed a logger with debug output enabled that really formats its arguments (and discards the text)
 	TimeoutNs   int64  `json:"timeout_ns,omitempty"`   // overrides TimeoutMs when non-zero
 	DeadlineNs  int64  `json:"deadline_ns,omitempty"`  // overrides DeadlineMs when non-zero
@@ -412,6 +417,9 @@ func (s *stack) binOf(key string) int {
 // buildStack constructs the stack. lim (core.Limit) may be nil (FixedLimit of cfg.Limit).
 func buildStack(cfg StackCfg, lim core.Limit, sc *sched, t0 time.Time) (*stack, error) {
 	s := &stack{cfg: cfg, reg: newRecRegistry()}
+	if cfg.SlowMetrics {
+		s.reg.sc = sc
+	}
 	if cfg.Kind == "fixedpool" {
 		ord := map[string]pool.Ordering{"random": pool.OrderingRandom, "fifo": pool.OrderingFIFO, "lifo": pool.OrderingLIFO}[cfg.Ordering]
 		timeout := time.Duration(cfg.TimeoutMs) * time.Millisecond
